@@ -4,10 +4,16 @@ pub fn allocate<T>(num: usize) -> *mut T {
     let vec = Vec::<T>::with_capacity(num);
     let rptr = vec.as_ptr();
     mem::forget(vec);
+    #[cfg(multiqueue2_verif)]
+    crate::verif_hooks::on_alloc(rptr as *mut T, num);
     rptr as *mut T
 }
 
 pub fn deallocate<T>(tofree: *mut T, num: usize) {
+    #[cfg(multiqueue2_verif)]
+    if crate::verif_hooks::on_dealloc(tofree, num) {
+        return;
+    }
     unsafe {
         Vec::from_raw_parts(tofree, 0, num);
     }
